@@ -705,4 +705,148 @@ theorem ArmsWF.of_check {g : Graph} (h : armsWF g = true) : ArmsWF g := by
     have := List.all_eq_true.mp hx2 t ht
     exact dataAnc_sound (by simpa using this)
 
+/-! ### further helper lemmas used by Thm/C06 -/
+
+theorem frag_unit (g : Graph) : ∀ (fuel n : Nat), ∀ e ∈ frag g fuel n, isUnit e.kind = true
+  | 0, _, e, he => by simp [frag] at he
+  | fuel + 1, n, e, he => by
+    simp only [frag, List.mem_flatMap, List.mem_append, List.mem_singleton] at he
+    obtain ⟨p, hp, he⟩ := he
+    rcases he with he | rfl
+    · exact frag_unit g fuel p e he
+    · exact (List.mem_filter.mp hp).2
+
+theorem frag_eq_chain {g : Graph} (hs : ∀ n, (unitBefores g n).length ≤ 1) :
+    ∀ (fuel n : Nat), frag g fuel n = (chainOf g fuel n).map (fun p => Ev.call p (g.kind p))
+  | 0, _ => rfl
+  | fuel + 1, n => by
+    simp only [frag, chainOf]
+    match hub : unitBefores g n, hs n with
+    | [], _ => simp
+    | [p], _ => simp [frag_eq_chain hs fuel p]
+    | _ :: _ :: _, h => simp at h
+
+theorem isEh_not_unit {k : Kind} (h : isEh k = true) : isUnit k = false := by
+  cases k <;> simp_all [isEh, isUnit]
+
+theorem isEh_not_structural {k : Kind} (h : isEh k = true) : isStructural k = false := by
+  cases k <;> simp_all [isEh, isStructural]
+
+theorem isEh_not_canFail {k : Kind} (h : isEh k = true) : canFail k = false := by
+  cases k <;> simp_all [isEh, canFail]
+
+theorem ehMatchers_path {g : Graph} {m h : Nat} (hm : m ∈ ehMatchers g h) : DataPath g m h := by
+  simp only [ehMatchers, List.mem_append, List.mem_filter, List.mem_flatMap] at hm
+  rcases hm with ⟨hm, _⟩ | ⟨e, ⟨he, _⟩, hm, _⟩
+  · exact .single hm
+  · exact .tail (.single hm) he
+
+/-- the error handler events of a run, read off the nodes that ran -/
+theorem filter_eh_out (g : Graph) (fails : Kind → Bool) (ran : List Nat) :
+    (ran.flatMap (emit g fails)).filter (fun e => isEh e.kind) =
+      (ran.filter (fun n => isEh (g.kind n))).map (fun n => Ev.call n (g.kind n)) := by
+  induction ran with
+  | nil => rfl
+  | cons n rest ih =>
+    simp only [List.flatMap_cons, List.filter_append, ih, emit]
+    have hfrag : (frag g g.size n).filter (fun e => isEh e.kind) = [] := by
+      apply List.filter_eq_nil_iff.mpr
+      intro e he
+      have := frag_unit g g.size n e he
+      cases hk : e.kind <;> simp_all [isUnit, isEh]
+    rw [hfrag]
+    by_cases hn : isEh (g.kind n) = true
+    · simp [evAt, hn, isEh_not_canFail hn, Ev.kind]
+    · have hn' : isEh (g.kind n) = false := by simpa using hn
+      simp only [List.nil_append, List.filter_cons, hn', Bool.false_eq_true, ↓reduceIte]
+      unfold evAt
+      split <;> simp [Ev.kind, hn']
+
+theorem filter_all_eq {l : List Nat} {h : Nat} {q : Nat → Bool} (hnd : l.Nodup) (hmem : h ∈ l) (hq : q h = true)
+    (hall : ∀ n ∈ l, q n = true → n = h) : l.filter q = [h] := by
+  induction l with
+  | nil => cases hmem
+  | cons a l ih =>
+    have hnd' := List.nodup_cons.mp hnd
+    rcases List.mem_cons.mp hmem with rfl | hmem
+    · simp only [List.filter_cons, hq, ↓reduceIte, List.cons.injEq, true_and]
+      apply List.filter_eq_nil_iff.mpr
+      intro n hn hqn
+      have := hall n (List.mem_cons_of_mem _ hn) hqn
+      subst this
+      exact hnd'.1 hn
+    · have ha : q a = false := by
+        cases hqa : q a with
+        | false => rfl
+        | true =>
+          have := hall a List.mem_cons_self hqa
+          subst this
+          exact absurd hmem hnd'.1
+      simp only [List.filter_cons, ha, Bool.false_eq_true, ↓reduceIte]
+      exact ih hnd'.2 hmem (fun n hn => hall n (List.mem_cons_of_mem _ hn))
+
+theorem dataPath_head {g : Graph} {a n : Nat} (h : DataPath g a n) :
+    a = n ∨ ∃ c, a ∈ g.dataPreds c ∧ DataPath g c n := by
+  induction h with
+  | refl => exact Or.inl rfl
+  | tail hp hmem ih =>
+    rename_i p n'
+    rcases ih with rfl | ⟨c, hc, hcp⟩
+    · exact Or.inr ⟨n', hmem, .refl⟩
+    · exact Or.inr ⟨c, hc, .tail hcp hmem⟩
+
+theorem sinksOf_no_succs {g : Graph} {a t : Nat} (h : t ∈ g.sinksOf a) : g.succs t = [] := by
+  have := (List.mem_filter.mp h).2
+  simpa using this
+
+/-- the calls of components without output, read off the nodes that ran -/
+theorem filter_unit_out (g : Graph) (fails : Kind → Bool) (ran : List Nat)
+    (hran : ∀ n ∈ ran, isUnit (g.kind n) = false) :
+    (ran.flatMap (emit g fails)).filter (fun e => isUnit e.kind) = ran.flatMap (frag g g.size) := by
+  induction ran with
+  | nil => rfl
+  | cons n rest ih =>
+    simp only [List.flatMap_cons, List.filter_append, emit]
+    rw [ih (fun k hk => hran k (List.mem_cons_of_mem _ hk))]
+    have hfrag : (frag g g.size n).filter (fun e => isUnit e.kind) = frag g g.size n := by
+      apply List.filter_eq_self.mpr
+      intro e he
+      exact frag_unit g g.size n e he
+    have hn := hran n List.mem_cons_self
+    rw [hfrag]
+    have : List.filter (fun e => isUnit e.kind) [evAt g fails n] = [] := by
+      unfold evAt
+      split <;> simp [Ev.kind, hn]
+    rw [this]; simp
+
+theorem prefix_dropLast {q path : List Nat} (h : q <+: path) (hne : q ≠ path) : q <+: path.dropLast := by
+  obtain ⟨t, rfl⟩ := h
+  have ht : t ≠ [] := by
+    intro ht; subst ht; simp at hne
+  rw [List.dropLast_append_of_ne_nil ht]
+  exact List.prefix_append _ _
+
+theorem countKind_append (g : Graph) (extra : List Kind) (p : Kind → Bool) :
+    countKind { g with nodes := g.nodes ++ extra } p = countKind g p + (extra.filter p).length := by
+  simp [countKind, List.filter_append]
+
+theorem foldl_nodes (f : Graph → Nat → Graph) (hf : ∀ acc m, (f acc m).nodes = acc.nodes) :
+    ∀ (ms : List Nat) (g : Graph), (ms.foldl f g).nodes = g.nodes
+  | [], _ => rfl
+  | m :: ms, g => by rw [List.foldl_cons, foldl_nodes f hf ms, hf]
+
+theorem injectOne_nodes_of (g : Graph) (x : Nat)
+    (h : (((g.succs x).filter (fun m => g.kind m == .okMatch || g.kind m == .errMatch)).length != 2) = false) :
+    (injectOne g x).nodes = g.nodes ++ [.branch] := by
+  unfold injectOne
+  simp only [h, Bool.false_eq_true, ↓reduceIte, addEdge, addNode]
+  exact foldl_nodes (fun acc m => { nodes := acc.nodes, edges := acc.edges ++ [⟨g.size, m, .move⟩] })
+    (fun _ _ => rfl) _ _
+
+theorem injectOne_nodes_not (g : Graph) (x : Nat)
+    (h : (((g.succs x).filter (fun m => g.kind m == .okMatch || g.kind m == .errMatch)).length != 2) = true) :
+    injectOne g x = g := by
+  unfold injectOne
+  simp only [h, ↓reduceIte]
+
 end Pxv.Err
